@@ -35,7 +35,7 @@ def _h_inlines(inl, doc, xhtml):
             out.append("<span>" + _h_inlines(i["inl"], doc, xhtml) + "</span>")
         else:
             raise ValueError(k)
-    return "".join(out)
+    return (" " if doc.get("_run_space") else "").join(out)     # run_space: the inline pieces of a paragraph are separated by a blank in the source
 
 
 def _h_blocks(blocks, doc, xhtml):
@@ -93,6 +93,8 @@ def html_of_blocks(blocks, doc, *, xhtml=False, title="T", head_extra="", charse
 def render_html(doc, *, opts=None, **kw) -> bytes:
     if (opts or {}).get("inline_removed"):
         doc = dict(doc, _rem=opts["inline_removed"])
+    if (opts or {}).get("run_space"):
+        doc = dict(doc, _run_space=True)
     blocks = [b for u in doc["units"] for b in u["blocks"]]
     hdr = ""
     if doc.get("header") is not None:
@@ -115,6 +117,8 @@ def render_epub(doc, *, images=None, opts=None, **kw) -> bytes:
     doc = dict(doc, _images=images or [])
     if opts.get("inline_removed"):
         doc["_rem"] = opts["inline_removed"]
+    if opts.get("run_space"):
+        doc["_run_space"] = True
     if opts.get("selfclose_empty_cells"):
         doc["_selfclose"] = True
     # chapter file names: plain, or words that merely contain "nav" / "toc" (protocol, canaveral, octocat): they are ordinary spine documents
